@@ -98,6 +98,48 @@ Fixpoint has_close (b : bytes) : bool :=
 Definition comment_body (b : bytes) : bool := forallb value_byte b && negb (has_close (b ++ [45; 45])).
 Definition comment (b : bytes) : bytes := [60; 33; 45; 45] ++ b ++ [45; 45; 62].
 
+(* ---- "accepts comments wherever white space is allowed" ----------------------------------- *)
+
+(* What a comment (or a processing instruction in front of the root) must not change: names, attributes,
+   nesting, and between two child elements the concatenated character data.  A comment counts as white
+   space and the text does not say which white space next to a comment is kept, so character data is
+   compared without its white-space bytes.  [squash] is the canonical form: positions erased, the text
+   nodes between two child elements joined without white space (an empty join is dropped). *)
+Definition strip_ws (t : bytes) : bytes := filter (fun c => negb (is_space c)) t.
+Definition flush_text (acc : bytes) : list node := match acc with [] => [] | _ => [T acc] end.
+
+Fixpoint squash (n : node) : node :=
+  match n with
+  | N _ _ nm at_ ct =>
+    N 0 0 nm at_
+      ((fix go (l : list node) (acc : bytes) {struct l} : list node :=
+          match l with
+          | [] => flush_text acc
+          | x :: r =>
+            match x with
+            | T t => go r (acc ++ strip_ws t)
+            | Nul => go r acc
+            | N _ _ _ _ _ => flush_text acc ++ squash x :: go r []
+            end
+          end) ct [])
+  | x => x
+  end.
+
+(* the two parse answers of a document and of the same document with comments / processing instructions
+   inserted: both accepted with the same squashed tree, or both rejected *)
+Definition same_up_to_gaps (a b : node) : Prop := squash a = squash b.
+
+(* ---- processing instructions ---------------------------------------------------------------- *)
+
+(* a processing instruction is "<?" body "?>" where the first "?>" of body ++ "?>" is the final one *)
+Fixpoint has_pi_end (b : bytes) : bool :=
+  match b with
+  | c :: r => (match r with c1 :: _ => (c =? 63) && (c1 =? 62) | [] => false end) || has_pi_end r
+  | [] => false
+  end.
+Definition pi_text (b : bytes) : bool := forallb value_byte b && negb (has_pi_end (b ++ [63])).
+Definition proc_instr (b : bytes) : bytes := [60; 63] ++ b ++ [63; 62].
+
 (* ---- predefined entities (XML 1.0, 4.6): lt gt amp apos quot ------------------------------ *)
 Definition std_entities : list (bytes * Z) :=
   [([108; 116], 60); ([103; 116], 62); ([97; 109; 112], 38); ([97; 112; 111; 115], 39); ([113; 117; 111; 116], 34)].
